@@ -1,6 +1,6 @@
 (* driver for the C05 model: one case per line
      vs <rows> <cols> cells(hex floats).. <nx> xs.. <ny> ys.. <x> <y> <observer_elev> <target_elev>
-   output:  OK <cells..> SPEC <same | cells..> FULL <same | cells..>
+   output:  OK <cells..> SPEC <same | cells..> FULL <same | cells..> PREM <ok | failed>
           | RANGE | DUPKEY | NOTFOUND | ERR ..
      tree <nops> ops..   (abstract status structure driven directly) -> one result code per op
    libm's atan is handed to the model here (Stdlib.atan). *)
@@ -24,9 +24,10 @@ let () = main_loop (fun op r ->
      | VsRange -> "RANGE"
      | VsErr EDupKey -> "DUPKEY"
      | VsErr ENotFound -> "NOTFOUND"
-     | VsOk (m, s, f) ->
+     | VsOk (m, s, f, p) ->
        "OK " ^ str_grid m ^ " SPEC " ^ (if same m s then "same" else str_grid s)
-       ^ " FULL " ^ (if same m f then "same" else str_grid f))
+       ^ " FULL " ^ (if same m f then "same" else str_grid f)
+       ^ " PREM " ^ (if p then "ok" else "failed"))
   | "tree" ->
     (* tree <nops> then per op:  I key g0 g1 g2 a0 a1 a2 | D key | Q key ang grad *)
     let n = next_int r in
